@@ -59,7 +59,7 @@ PROPS = {
                      "(proved), every other automaton must keep its language; plus bottom-up → top-down conversion; non-trivial "
                      "= some intersection non-empty or conversion of a non-empty language",
                 assumptions=PROOF_ASSUME),
-    "C09": dict(level="proof", plain=dict(quick=2000, thorough=30000), cli=dict(kinds=[("nfah_cli", 1)], quick=200, thorough=5000), kinds=[("nfah_incl", 24), ("achain", 1), ("ordvec", 1), ("cacheh", 1), ("cliargs", 1)], n=dict(quick=5600, thorough=100000, search=5000),
+    "C09": dict(level="proof", plain=dict(quick=2000, thorough=30000), cli=dict(kinds=[("nfah_cli", 1)], quick=200, thorough=5000), kinds=[("nfah_incl", 24), ("nfah_inclsim", 5), ("achain", 1), ("ordvec", 1), ("cacheh", 1), ("cliargs", 1)], n=dict(quick=6600, thorough=100000, search=5000),
                 rule="pairs of NFAs (several start states, start∧final, dead / unreachable states, symbols in one operand only, "
                      "overlapping and sparse numbers; B mutated from / a nondeterministic split of A); antichains, congruence "
                      "depth / breadth and the default overload through the API on raw operands, each verdict judged against the "
